@@ -77,6 +77,11 @@ def _get_check(modname, cname):
     key = (modname, cname)
     if key not in _prepared:
         mod = importlib.import_module(modname)
+        try:
+            import pysam
+            pysam.set_verbosity(0)   # htslib warnings about generated headers are noise here
+        except Exception:
+            pass
         for c in mod.B_CHECKS:
             if c.name == cname:
                 c.prepare()
